@@ -401,7 +401,7 @@ def job_topos(n, seed):
 
 
 def jobs(tier, seed):
-    k = 1 if tier == "quick" else 40
+    k = 1 if tier == "quick" else 20
     js = []
     for s in range(11):
         js.append({"fn": "vf.props.c06:job_histories", "args": {"n": 1500 * k, "seed": seed * 1000 + s}})
